@@ -150,9 +150,113 @@ def reachability_case(case):
     return dict(reproduced=bool(violated), violated=violated[:3])
 
 
+def legacy_case(case):
+    """C16 (statement): on graphs where every object is referenced from at most one place, a handler registered with
+    on_trait_change('<link>.value' / '<link>:value') is called for a change of the final attribute iff the changed object is
+    reachable now, exactly as an observe handler for the corresponding expression; removal stops all calls.  Random
+    histories of reassignments and container mutations over list, dict and instance links, objects never shared."""
+    import random
+    from traits.api import HasTraits, Int, List, Dict, Str, Instance
+    rnd = random.Random(int(case.get("seed", 0)))
+
+    class Child(HasTraits):
+        value = Int
+
+    class Root(HasTraits):
+        children = List(Instance(Child))
+        named = Dict(Str, Instance(Child))
+        one = Instance(Child)
+    violated = []
+    for legacy, expr, attr in (("children.value", "children.items.value", "children"), ("named.value", "named.items.value", "named"),
+                               ("named:value", "named:items:value", "named"), ("one.value", "one.value", "one")):
+        for trial in range(int(case.get("trials", 60))):
+            root = Root()
+            everyone = []
+
+            def fresh():
+                c = Child()
+                everyone.append(c)
+                return c
+            legacy_calls, observe_calls = [], []
+
+            def on_legacy(obj, name, old, new):
+                if name == "value":
+                    legacy_calls.append(obj)
+
+            def on_observe(e):
+                observe_calls.append(e.object)
+            root.on_trait_change(on_legacy, legacy)
+            root.observe(on_observe, expr)
+            history = []
+            try:
+                for step in range(rnd.randint(1, 6)):
+                    if attr == "children":
+                        lst = root.children
+                        op = rnd.choice(["append", "slice", "del", "set", "assign", "extend", "pop"])
+                        if op == "append":
+                            lst.append(fresh())
+                        elif op == "extend":
+                            lst.extend([fresh() for _ in range(rnd.randint(0, 2))])
+                        elif op == "slice":
+                            a = rnd.randint(0, len(lst)); b = rnd.randint(a, len(lst))
+                            lst[a:b] = [fresh() for _ in range(rnd.randint(0, 3))]
+                        elif op == "del" and lst:
+                            del lst[rnd.randrange(len(lst))]
+                        elif op == "pop" and lst:
+                            lst.pop()
+                        elif op == "set" and lst:
+                            lst[rnd.randrange(len(lst))] = fresh()
+                        elif op == "assign":
+                            root.children = [fresh() for _ in range(rnd.randint(0, 3))]
+                        reachable = set(map(id, root.children))
+                    elif attr == "named":
+                        d = root.named
+                        op = rnd.choice(["set", "del", "update", "update", "assign", "pop", "clear"])
+                        if op == "set":
+                            d[rnd.choice("abc")] = fresh()
+                        elif op == "del" and d:
+                            del d[rnd.choice(sorted(d))]
+                        elif op == "pop" and d:
+                            d.pop(rnd.choice(sorted(d)))
+                        elif op == "clear":
+                            d.clear()
+                        elif op == "update":
+                            d.update({k: fresh() for k in rnd.sample("abcd", rnd.randint(0, 3))})
+                        elif op == "assign":
+                            root.named = {k: fresh() for k in rnd.sample("abc", rnd.randint(0, 3))}
+                        reachable = set(map(id, root.named.values()))
+                    else:
+                        op = rnd.choice(["assign", "none"])
+                        root.one = fresh() if op == "assign" else None
+                        reachable = {id(root.one)} if root.one is not None else set()
+                    history.append(op)
+                    for c in everyone:
+                        del legacy_calls[:], observe_calls[:]
+                        c.value += 1
+                        want = 1 if id(c) in reachable else 0
+                        if len(legacy_calls) != want or len(observe_calls) != want:
+                            violated.append("on_trait_change(%r) / observe(%r) after %r: object %d (%s) changed: legacy handler called %d time(s), observe handler %d, expected %d" % (
+                                legacy, expr, history, everyone.index(c), "reachable" if want else "detached", len(legacy_calls), len(observe_calls), want))
+                            raise StopIteration
+                root.on_trait_change(on_legacy, legacy, remove=True)
+                for c in everyone:
+                    del legacy_calls[:]
+                    c.value += 1
+                    if legacy_calls:
+                        violated.append("on_trait_change(%r, remove=True) after %r: object %d still calls the handler" % (legacy, history, everyone.index(c)))
+                        raise StopIteration
+            except StopIteration:
+                pass
+            except Exception as e:
+                violated.append("%s after %r: %s: %s" % (legacy, history, type(e).__name__, e))
+            if len(violated) >= 3:
+                break
+    return dict(reproduced=bool(violated), violated=violated[:3])
+
+
 def main():
     case = json.loads(sys.stdin.read())
-    out = {"atomic": atomic_case, "reachability": reachability_case}[case["family"]](case)
+    out = {"atomic": atomic_case, "reachability": reachability_case, "legacy": legacy_case}[case["family"]](case)
     print(json.dumps(out, default=repr))
 
 
